@@ -5,6 +5,7 @@ import (
 	"reflect"
 	"testing"
 
+	"gonum.org/v1/gonum/mat"
 	"gorgonia.org/tensor"
 	"gorgonia.org/tensor/native"
 	"pgregory.net/rapid"
@@ -215,12 +216,14 @@ type C04Copy struct {
 	A    Opnd   `json:"src"`
 	Op   string `json:"op"` // Clone | Materialize | SafeT | pkgT | pkgTranspose | CopyFresh | CopyTo | ToMat64 | FromMat64 | Native
 	Perm []int  `json:"perm,omitempty"`
+	// Unsafe (ToMat64): UseUnsafe() is passed - the matrix may share the tensor's storage
+	Unsafe bool `json:"unsafe,omitempty"`
 }
 
 func init() { register("C04.copy", func() Case { return &C04Copy{} }) }
 
 func (c *C04Copy) NTKey() string {
-	return fmt.Sprintf("%s|%s|%v|%v|%v", c.DT, c.Op, c.A.Shape, c.A.L, c.Perm)
+	return fmt.Sprintf("%s|%s|%v|%v|%v|%v", c.DT, c.Op, c.A.Shape, c.A.L, c.Perm, c.Unsafe)
 }
 
 func (c *C04Copy) Run() string {
@@ -290,7 +293,15 @@ func (c *C04Copy) Run() string {
 			lerr = tensor.Copy(cp, t)
 			want = Arr{DT: d, Shape: []int{prod(c.A.Shape)}, E: A.arr.E}
 		case "ToMat64":
-			m, err := tensor.ToMat64(t)
+			var m *mat.Dense
+			var err error
+			if c.Unsafe {
+				// without a copy where the storage allows it: the same elements all the same
+				rec.Class("tomat64:unsafe")
+				m, err = tensor.ToMat64(t, tensor.UseUnsafe())
+			} else {
+				m, err = tensor.ToMat64(t)
+			}
 			lerr = err
 			if err == nil {
 				r, cc := m.Dims()
@@ -303,6 +314,11 @@ func (c *C04Copy) Run() string {
 						extra = fmt.Sprintf("matrix element %v is %v, expected %v", co, m.At(co[0], co[1]), toF64(A.arr.E[k]))
 						return
 					}
+				}
+				if c.Unsafe {
+					extra = A.unchanged("the source of ToMat64")
+					sharing = true
+					return
 				}
 				// a safe conversion is a copy
 				orig00 := m.At(0, 0)
@@ -530,6 +546,7 @@ func TestC04(t *testing.T) {
 				if op == "SafeT" || op == "pkgT" || op == "pkgTranspose" {
 					c.Perm = genPerm(rt, len(shape), "perm")
 				}
+				c.Unsafe = op == "ToMat64" && rapid.IntRange(0, 2).Draw(rt, "tomatunsafe") == 0
 				return avoidC04Regions(c)
 			})
 		}
